@@ -614,7 +614,8 @@ def c10(ctx):
       'TWS: the whitespace set contains SP, TAB, CR, LF (read off the predicate\'s MIR over a finite partition of char). '
       'WWS: in the token scanner the whitespace skipper dominates the read of the dispatching character, and the function-vs-reference decision is taken by a predicate on the next *token* obtained through the token scanner on a copy (so `f (x)` and `f(x)` agree), not by a character-level peek. '
       'WPAREN: "(" is dispatched to a body that checks ")" and returns the inner expression node itself (the moved Ok payload of the inner parse: no wrapper node, no modified copy). '
-      'WORDSTOP: the word-operator look-ahead and scanner stop at SP, TAB, CR and LF (read off their character predicates; not decided when the stop set is not a plain character predicate). '
+      'WORDSTOP: the word-operator look-ahead and scanner stop at SP, TAB, CR and LF (read off their character predicates, or off the scanning loop itself by partial evaluation). '
+      'NUMSTART: the number scanner is entered for digits only (a sign glued to the digits by the lexer makes `-5` and `- 5` different trees). SLICE (constructor / reassign): the character iterator is char_indices() of the stored input and is never re-created over a suffix. '
       'These are the mutations the property\'s own rationale names.',
       not_decided='the relation itself (AST equality over all re-layouts of all programs)',
       assumptions=COMMON_ASSUME)
@@ -635,7 +636,13 @@ def c11(ctx):
     # follows it (a test on the raw next character sees the layout)
     obs += r_prec.rule_munch(roles, tr.tm)
     # a word operator ends at every whitespace character (a line break after `in` is layout, not part of the word)
-    obs += [o for o in r_token.rule_wordscan(roles, reg_model(ctx), slice_model(ctx)[0]) if o.rule == 'WORDSTOP']
+    sm, sobs = slice_model(ctx)
+    obs += [o for o in r_token.rule_wordscan(roles, reg_model(ctx), sm) if o.rule == 'WORDSTOP']
+    # a sign is a token of its own: glued to the digits by the lexer, `-5` and `- 5` (or `-(5)`) are different trees
+    obs += r_token.rule_numstart(roles, tr)
+    # positions always refer to the one input string (the char iterator is `char_indices()` of the stored input and is
+    # never re-created over a suffix): otherwise what a token means depends on how much was skipped before it
+    obs += [o for o in sobs if o.key.startswith(('SLICE|ctor', 'SLICE|fields', 'SLICE|reassign', 'SLICE|floor'))]
     return obs, {}
 
 
